@@ -1,5 +1,6 @@
 SPECIFICATION Spec
-CONSTANT TraceFile = "trace.ndjson"
+CONSTANTS
+  TraceFile = "trace.ndjson"
 INVARIANT InvC06
 POSTCONDITION Accepted
 CHECK_DEADLOCK FALSE
